@@ -155,6 +155,7 @@ class History(RuleBasedStateMachine):
             self.paths.append(p)
         # ONE include-directory list object, handed to every call that uses the option (the way a build script would)
         self.shared_incdirs = [os.path.join(self.dir, 'defs')]
+        self.local_k = [5, 1234]
 
     def _dict_index(self, d):
         for n, r in enumerate(self.returned):
@@ -187,9 +188,9 @@ class History(RuleBasedStateMachine):
         else:
             lin, cin = {'test': 0, 'near': 0, 'far': 0x20000000}, {'PRESET': 7}
         if mode in ('reuse', 'foreign'):
-            ref = fresh(src, compress, {}, {}, ref_dirs, text)
+            ref = fresh(src, compress, {}, {}, ref_dirs, text + '#local=%r' % (self.local_k,))
         else:
-            ref = fresh(src, compress, copy.deepcopy(lin), copy.deepcopy(cin), ref_dirs, text)
+            ref = fresh(src, compress, copy.deepcopy(lin), copy.deepcopy(cin), ref_dirs, text + '#local=%r' % (self.local_k,))
         kw = {'compress': compress}
         if include_dirs is not None:
             kw['include_dirs'] = include_dirs
@@ -274,6 +275,15 @@ class History(RuleBasedStateMachine):
         with open(self.paths[i], 'w', encoding='utf-8') as f:
             f.write(self.pool[i])
         self.reusable = [x for x in self.reusable if x[0] != i]
+        self.rewrites = getattr(self, 'rewrites', 0) + 1
+
+    @rule(which=st.integers(0, 1), value=st.sampled_from([5, 7, 1234, 2047, 2048, 40000]))
+    def rewrite_an_included_file(self, which, value):
+        # the local.asm of one source directory gets new contents between two builds
+        self.ops.append(['rewrite_local', which, value])
+        self.local_k[which] = value
+        with open(os.path.join(self.dir, ('src', 'src2')[which], 'local.asm'), 'w') as f:
+            f.write('LOCAL_K = %d\n' % value)
         self.rewrites = getattr(self, 'rewrites', 0) + 1
 
     @precondition(lambda self: len(self.returned) > 0)
@@ -434,6 +444,11 @@ def replay(path):
                         continue
                     m.ops = []
                     m._call(i, compress, mode, incdirs, reuse_from=rf)
+                elif op[0] == 'rewrite_local':
+                    _, which, value = op
+                    m.local_k[which] = value
+                    with open(os.path.join(m.dir, ('src', 'src2')[which], 'local.asm'), 'w') as f:
+                        f.write('LOCAL_K = %d\n' % value)
                 elif op[0] == 'rewrite':
                     _, i, j = op
                     m.pool[i] = m.original[j]
